@@ -63,9 +63,17 @@ func refJumpdests(code []byte) map[int]bool {
 }
 
 func refRun(code, input []byte, p022 bool) refResult {
+	return refRunNested(code, input, p022, nil, nil)
+}
+
+// refRunNested: as refRun; additionally STATICCALL (0xfa) to `calleeAddr` runs `calleeCode` in a
+// fresh frame (own stack and memory, call data = the input window) and gives the caller the
+// success flag, the return data and the write-back of min(retSize, len(ret)) bytes.
+func refRunNested(code, input []byte, p022 bool, calleeAddr, calleeCode []byte) refResult {
 	var (
 		st   []*big.Int
 		mem  []byte
+		rd   []byte
 		pc   = 0
 		dest = refJumpdests(code)
 	)
@@ -136,6 +144,8 @@ func refRun(code, input []byte, p022 bool) refResult {
 			need, adds = int(op)-0x7f, int(op)-0x7f+1
 		case op >= 0x90 && op <= 0x9f:
 			need, adds = int(op)-0x8f+1, int(op)-0x8f+1
+		case op == 0xfa && calleeAddr != nil:
+			need, adds = 6, 1
 		case op == 0x5a:
 			return refResult{kind: "skip"}
 		case op >= 0x0c && op <= 0x0f, op == 0x1e, op == 0x1f, op >= 0x21 && op <= 0x2f, op >= 0xa5 && op <= 0xe9, op == 0xfe:
@@ -299,7 +309,36 @@ func refRun(code, input []byte, p022 bool) refResult {
 		case op == 0x38:
 			push(big.NewInt(int64(len(code))))
 		case op == 0x3d:
-			push(big.NewInt(0))
+			push(big.NewInt(int64(len(rd))))
+		case op == 0xfa:
+			_, addr, inOff, inSize, retOff, retSize := pop(), pop(), pop(), pop(), pop(), pop()
+			if !bytes.Equal(leftPad32(addr.Bytes())[12:], calleeAddr) || addr.BitLen() > 160 {
+				return refResult{kind: "skip", why: "call to another address"}
+			}
+			if !touch(inOff, inSize) || !touch(retOff, retSize) {
+				return fail("memory")
+			}
+			var in []byte
+			if inSize.Sign() > 0 {
+				in = append([]byte{}, mem[inOff.Int64():inOff.Int64()+inSize.Int64()]...)
+			}
+			sub := refRunNested(calleeCode, in, p022, nil, nil)
+			switch sub.kind {
+			case "skip":
+				return sub
+			case "ok":
+				push(big.NewInt(1))
+				rd = sub.ret
+			case "revert":
+				push(big.NewInt(0))
+				rd = sub.ret
+			default:
+				push(big.NewInt(0))
+				rd = nil
+			}
+			if sub.kind != "err" && retSize.Sign() > 0 {
+				copy(mem[retOff.Int64():retOff.Int64()+retSize.Int64()], rd)
+			}
 		case op == 0x37 || op == 0x39:
 			mo, do, l := pop(), pop(), pop()
 			if !touch(mo, l) {
@@ -314,10 +353,15 @@ func refRun(code, input []byte, p022 bool) refResult {
 			}
 		case op == 0x3e:
 			mo, do, l := pop(), pop(), pop()
-			if new(big.Int).Add(do, l).Sign() > 0 { // return data is empty in these programs
+			if new(big.Int).Add(do, l).Cmp(big.NewInt(int64(len(rd)))) > 0 {
 				return fail("return data out of bounds")
 			}
-			_ = mo
+			if !touch(mo, l) {
+				return fail("memory")
+			}
+			if l.Sign() > 0 {
+				copy(mem[mo.Int64():mo.Int64()+l.Int64()], rd[do.Int64():do.Int64()+l.Int64()])
+			}
 		case op == 0x50:
 			pop()
 		case op == 0x51:
@@ -461,6 +505,36 @@ func search(a map[string]string) {
 				}
 				report(key, line, kind+" "+hx.Hex(ret), r.kind+" "+hx.Hex(r.ret)+" "+r.why)
 			}
+		case "run2":
+			cfg, _ := strconv.Atoi(w[1])
+			gas, _ := strconv.ParseUint(w[2], 10, 64)
+			code, _ := hx.UnHex(w[3])
+			callee, _ := hx.UnHex(w[4])
+			input, _ := hx.UnHex(w[5])
+			r := refRunNested(code, input, cfg&2 != 0, calleeAddr.Bytes(), callee)
+			if r.kind == "skip" {
+				skipped++
+				return
+			}
+			var kind string
+			var ret []byte
+			res := hx.Guard(func() string {
+				k, _, rt := runImpl2(cfg, gas, code, callee, input)
+				kind, ret = k, rt
+				return k
+			})
+			if strings.HasPrefix(res, "PANIC") {
+				kind = res
+			}
+			evals++
+			ik := kind
+			if strings.HasPrefix(kind, "err") {
+				ik = "err"
+			}
+			classes[stream+":"+ik]++
+			if ik != r.kind || (ik != "err" && !bytes.Equal(ret, r.ret)) {
+				report("spec-program-"+stream, line, kind+" "+hx.Hex(ret), r.kind+" "+hx.Hex(r.ret)+" "+r.why)
+			}
 		case "valid":
 			code, _ := hx.UnHex(w[1])
 			d, _ := hx.UnHex(w[2])
@@ -493,6 +567,10 @@ func search(a map[string]string) {
 			report("vector-"+v.name, v.line, kind+" "+hx.Hex(ret), "expected "+hx.Hex(v.expect))
 		}
 		check("lattice", v.line)
+	}
+	// class 3: nested frames (pooled stacks/memory handed from frame to frame, return data)
+	for i := 0; i < 1500; i++ {
+		check("nested", g.nested())
 	}
 	done := false
 	g.all(func(stream, line string) {
@@ -557,4 +635,73 @@ func opOfLattice(code []byte) string {
 		return fmt.Sprintf("%02x", o)
 	}
 	return "?"
+}
+
+// ---------------------------------------------------------------- concurrency (class 4)
+
+// concurrent: the same programs sequentially and then from N goroutines, each goroutine with
+// its own account DB and EVMs (as RPC calls and block execution do in the node); every answer
+// must equal the sequential one.  Fork flags are process-global, so one configuration per phase.
+func concurrent(a map[string]string) {
+	g := newGen(hx.NewRng(hx.SeedFromEnv()^0xc0c0), false)
+	n := hx.ArgInt(a, "n", 3000)
+	workers := hx.ArgInt(a, "workers", 8)
+	type job struct {
+		line        string
+		gas         uint64
+		code, input []byte
+		want        string
+	}
+	var lines []string
+	g.all(func(stream, line string) {
+		if strings.HasPrefix(line, "run ") && len(lines) < n && (stream == "straight" || stream == "memory" || stream == "branch" || stream == "lattice" || stream == "arity") {
+			lines = append(lines, line)
+		}
+	})
+	found, evals := 0, 0
+	for _, cfg := range []int{7, 0} {
+		setCfg(cfg)
+		jobs := make([]job, 0, len(lines))
+		for _, l := range lines {
+			w := strings.Fields(l)
+			gas, _ := strconv.ParseUint(w[2], 10, 64)
+			code, _ := hx.UnHex(w[3])
+			input, _ := hx.UnHex(w[4])
+			j := job{line: l, gas: gas, code: code, input: input}
+			j.want = hx.Guard(func() string {
+				k, left, ret := runOn(state, gas, code, input)
+				return fmt.Sprintf("%s %d %s", k, left, hx.Hex(ret))
+			})
+			jobs = append(jobs, j)
+		}
+		res := make([]string, len(jobs))
+		done := make(chan bool, workers)
+		for w := 0; w < workers; w++ {
+			go func(w int) {
+				st := newState()
+				for i := w; i < len(jobs); i += workers {
+					j := jobs[i]
+					res[i] = hx.Guard(func() string {
+						k, left, ret := runOn(st, j.gas, j.code, j.input)
+						return fmt.Sprintf("%s %d %s", k, left, hx.Hex(ret))
+					})
+				}
+				done <- true
+			}(w)
+		}
+		for w := 0; w < workers; w++ {
+			<-done
+		}
+		for i, j := range jobs {
+			evals++
+			if res[i] != j.want {
+				found++
+				if found <= 10 {
+					fmt.Printf("FOUND key=concurrent-divergence impl=%s ref=%s line=run %d %d %s %s\n",
+						strings.ReplaceAll(res[i], " ", "_"), strings.ReplaceAll("sequential:"+j.want, " ", "_"), cfg, j.gas, hx.Hex(j.code), hx.Hex(j.input))
+				}
+			}
+		}
+	}
+	fmt.Printf("STATS {\"evaluations\":%d,\"found\":%d,\"workers\":%d}\n", evals, found, workers)
 }
